@@ -28,6 +28,7 @@ Not proved here (measured by tools/props/c18.py, reported as residue):
 namespace ImathVerif.Rand48.C18
 open ImathVerif.Rand48 ImathVerif.Rand48.Spec ImathVerif.Rand48.Field
 set_option exponentiation.threshold 2000
+set_option linter.unusedSectionVars false
 
 /-! ## the 48-bit generator -/
 
@@ -172,14 +173,13 @@ theorem rand32_next (st : Nat) :
 /-- nexti is the low 32 bits of the new state, `< 2^32` -/
 theorem rand32_nexti (st : Nat) :
     (r32Nexti st).1 = r32Next st % 2 ^ 32 ∧ (r32Nexti st).1 < 2 ^ 32 ∧ (r32Nexti st).2 = r32Next st := by
-  simp only [r32Nexti, and_ffffffff]
-  exact ⟨rfl, Nat.mod_lt _ (by decide), rfl⟩
+  have e : (r32Nexti st).1 = r32Next st % 4294967296 := and_ffffffff _
+  exact ⟨e, by rw [e]; exact Nat.mod_lt _ (by decide), rfl⟩
 
 /-- nextb is bit 31 of the new state -/
 theorem rand32_nextb (st : Nat) :
     (r32Nextb st).1 = decide (r32Next st / 2 ^ 31 % 2 = 1) ∧ (r32Nextb st).2 = r32Next st := by
-  simp only [r32Nextb, and_bit31]
-  exact ⟨rfl, rfl⟩
+  exact ⟨and_bit31 _, rfl⟩
 
 /-- the `u.f - 1` in Rand32::nextf is exact (same statement as `sub_one_exact_dbl` for binary32) -/
 theorem sub_one_exact_flt (p : Nat) (h1 : 0x3f800000 ≤ p) (h2 : p < 0x40000000) :
@@ -212,6 +212,7 @@ theorem rand32_nextf (st : Nat) :
   have hm : m < 8388608 := Nat.mod_lt _ (by decide)
   have pk : r32NextfPacked (r32Next st) = 0x3f800000 + m := by rw [r32NextfPacked_eq]; rfl
   have hu : (r32Nextf st).1 = fltMinusOne (r32NextfPacked (r32Next st)) := rfl
+  clear_value m
   have e : (r32Nextf st).1 = fltOfFrac23 m := by
     rw [hu, pk]; unfold fltMinusOne
     congr 1; omega
